@@ -36,23 +36,66 @@ from gradysim.simulator.simulation import SimulationBuilder, SimulationConfigura
 # event-loop histories
 # --------------------------------------------------------------------------------------------
 
+class _Job:
+    """a short-lived object whose bound method is handed over as the callback"""
+    def __init__(self, tag):
+        self.tag = tag
+
+    def run(self):
+        return self.tag
+
+    def __call__(self):
+        return self.tag
+
+
+def _tagged(tag):
+    def cb():
+        return tag
+    return cb
+
+
+def _el_callback(tag, keeper):
+    """callables of every kind a caller may legitimately pass: lambda, closure, partial, bound method of a
+    temporary object, bound method of a long-lived object, callable instance"""
+    import functools
+    k = tag % 6
+    if k == 0:
+        return lambda tag=tag: tag
+    if k == 1:
+        return _tagged(tag)
+    if k == 2:
+        return functools.partial(int, tag)
+    if k == 3:
+        return _Job(tag).run                     # nobody else keeps the object alive
+    if k == 4:
+        j = _Job(tag)
+        keeper.append(j)
+        return j.run
+    return _Job(tag)
+
+
+def _el_result(x):
+    return x if isinstance(x, int) and not isinstance(x, bool) else -1
+
+
 def run_el_impl(ops):
     """ops: list of ('sched', ts, tag) | ('pop',) | ('peek',) | ('clear',) | ('len',) | ('now',)"""
     el = EventLoop()
     out = []
+    keeper = []
     for op in ops:
         k = op[0]
         try:
             if k == "sched":
                 tag = op[2]
-                el.schedule_event(op[1], (lambda tag=tag: tag), "ctx")
+                el.schedule_event(op[1], _el_callback(tag, keeper), "ctx")
                 out.append("ok")
             elif k == "pop":
                 e = el.pop_event()
-                out.append("popped %s %d" % (fhex(e.timestamp), e.callback()))
+                out.append("popped %s %d" % (fhex(e.timestamp), _el_result(e.callback())))
             elif k == "peek":
                 e = el.peek_event()
-                out.append("peeked none" if e is None else "peeked %s %d" % (fhex(e.timestamp), e.callback()))
+                out.append("peeked none" if e is None else "peeked %s %d" % (fhex(e.timestamp), _el_result(e.callback())))
             elif k == "clear":
                 el.clear()
                 out.append("cleared")
@@ -110,7 +153,8 @@ def _act_str(a):
     if k == "cancel":
         return "cancel %d" % a[1]
     if k == "send":
-        return "send %d %s" % (a[1], "none" if a[2] is None else str(a[2]))
+        # a negative destination names no node; the model's identifiers are naturals: written as 5000 + |d|
+        return "send %d %s" % (a[1], "none" if a[2] is None else str(a[2] if a[2] >= 0 else 5000 - a[2]))
     if k == "bcast":
         return "bcast %d" % a[1]
     if k == "bcastdst":
@@ -173,6 +217,24 @@ class ScriptedProtocol(IProtocol):
         if hook is not None:
             hook(self)
 
+    def external(self, acts):
+        """requests made from outside any callback (driver code between two steps)"""
+        _guard()
+        nid = self.provider.get_id()
+        now = self.provider.current_time()
+        CTX.trace.append("cb %d %s ext" % (nid, fhex(now)))
+        for a in acts:
+            try:
+                self._do(a)
+                res = "ok"
+            except TimerException:
+                res = "errtimer"
+            except CommunicationException:
+                res = "errcomm"
+            except ValueError:
+                res = "errvalue"
+            CTX.trace.append("act %d %s %s" % (nid, _act_str(a), res))
+
     def _do(self, a):
         k = a[0]
         p = self.provider
@@ -199,6 +261,19 @@ class ScriptedProtocol(IProtocol):
                 p.send_communication_command(BroadcastMessageCommand(str(a[1])))
         elif k == "bcastdst":
             p.send_communication_command(CommunicationCommand(CommunicationCommandType.BROADCAST, str(a[1]), a[2]))
+        elif k in ("goto", "gotogeo", "speed") and CTX.scenario.get("reuse_commands"):
+            # one long-lived command object per kind, its fields rewritten for every request
+            tm = getattr(self, "_mob_tmpl", None)
+            if tm is None:
+                tm = self._mob_tmpl = {"goto": GotoCoordsMobilityCommand(0.0, 0.0, 0.0),
+                                       "gotogeo": GotoGeoCoordsMobilityCommand(0.0, 0.0, 0.0),
+                                       "speed": SetSpeedMobilityCommand(0.0)}
+            c = tm[k]
+            if k == "speed":
+                c.param_1 = a[1]
+            else:
+                c.param_1, c.param_2, c.param_3 = a[1], a[2], a[3]
+            p.send_mobility_command(c)
         elif k == "goto":
             p.send_mobility_command(GotoCoordsMobilityCommand(a[1], a[2], a[3]))
         elif k == "gotogeo":
@@ -348,9 +423,23 @@ class _Quiet:
         root.setLevel(logging.WARNING)
 
 
+_CONFIGS = {}
+
+
+def _shared_config(key, make):
+    """One configuration object per distinct parameter set, handed to every simulation of this process that uses
+    these parameters (what a user does who builds several simulations from one configuration): a handler must
+    treat the configuration it is given as read-only."""
+    if key not in _CONFIGS:
+        if len(_CONFIGS) > 5000:
+            _CONFIGS.clear()
+        _CONFIGS[key] = make()
+    return _CONFIGS[key]
+
+
 def run_sim_impl(sc, variant=None):
     """Runs the implementation on scenario `sc`; returns (trace lines, draws consumed)."""
-    variant = variant or {}
+    variant = variant or sc.get("variant") or {}
     CTX.scenario, CTX.trace, CTX.draws = sc, [], 0
     orig_random = random.random
     stream = sc.get("stream")
@@ -386,11 +475,11 @@ def run_sim_impl(sc, variant=None):
                 if h == "T":
                     b.add_handler(TimerHandler())
                 elif h == "C":
-                    b.add_handler(CommunicationHandler(CommunicationMedium(transmission_range=rng, delay=delay,
-                                                                           failure_rate=fail)))
+                    b.add_handler(CommunicationHandler(_shared_config(("med", rng, delay, fail), lambda: CommunicationMedium(
+                        transmission_range=rng, delay=delay, failure_rate=fail))))
                 elif h == "M":
-                    b.add_handler(MobilityHandler(MobilityConfiguration(update_rate=rate, default_speed=speed,
-                                                                        reference_coordinates=tuple(ref))))
+                    b.add_handler(MobilityHandler(_shared_config(("mob", rate, speed, tuple(ref)), lambda: MobilityConfiguration(
+                        update_rate=rate, default_speed=speed, reference_coordinates=tuple(ref)))))
                 elif h == "A":
                     b.add_handler(AssertionHandler([make_assertion(i, s) for i, s in enumerate(sc["asserts"])]))
                 elif h.startswith("R"):
@@ -413,7 +502,7 @@ def run_sim_impl(sc, variant=None):
                 except FailedAssertionException as e:
                     CTX.trace.append(_assert_line(e))
                     status = "aborted"
-            else:
+            elif drv[0] != "drive":
                 status = "running"
                 for _ in range(drv[1]):
                     try:
@@ -433,6 +522,22 @@ def run_sim_impl(sc, variant=None):
                     except FailedAssertionException as e:
                         CTX.trace.append(_assert_line(e))
                         status = "aborted"
+            if drv[0] == "drive":
+                status = "running"
+                for op in drv[1]:
+                    if op[0] == "ext":
+                        sim.get_node(op[1]).protocol_encapsulator.protocol.external(op[2])
+                        continue
+                    try:
+                        r = sim.step_simulation()
+                    except FailedAssertionException as e:
+                        CTX.trace.append(_assert_line(e))
+                        CTX.trace.append("ret raised")
+                        status = "aborted"
+                        break
+                    CTX.trace.append("ret %s" % ("true" if r else "false"))
+                    if not r:
+                        status = "done"
             it_count = getattr(sim, "_iteration", "?")
             CTX.trace.append("end %s iter %s draws %d" % (status, it_count, CTX.draws))
     except Runaway as e:
@@ -485,6 +590,13 @@ def sim_to_text(sid, sc, stream, fuel=80000, show_exec=False):
         p.append("DRV runrun %d" % fuel)
     elif sc["drv"][0] == "mixed":
         p.append("DRV mixed %d %d" % (sc["drv"][1], fuel))
+    elif sc["drv"][0] == "drive":
+        p.append("DRV drive %d" % len(sc["drv"][1]))
+        for op in sc["drv"][1]:
+            if op[0] == "step":
+                p.append("step")
+            else:
+                p.append("ext %d %d %s" % (op[1], len(op[2]), " ".join(_act_str(a) for a in op[2])))
     else:
         p.append("DRV steps %d" % sc["drv"][1])
     if show_exec:
